@@ -157,7 +157,7 @@ def _install_events(engine):
 class App(object):
     """A fresh database + application. Reuses the process-wide engine."""
 
-    def __init__(self, overrides=None, policy_rules=None, sync=True):
+    def __init__(self, overrides=None, policy_rules=None, sync=True, nocase=False):
         st = init()
         self.engine = st['engine']
         self.conf = st['conf']
@@ -168,6 +168,10 @@ class App(object):
             # never do.  Declare it so that "DELETE ... WHERE id IN (ids read earlier)" behaves as there.
             for tbl in models.BASE.metadata.tables.values():
                 tbl.kwargs['sqlite_autoincrement'] = True
+                # nocase=True: compare uuid columns case-insensitively, as MySQL's default collations do
+                for col in tbl.columns:
+                    if col.name == 'uuid' and isinstance(col.type, sa.String):
+                        col.type = sa.String(col.type.length, collation='NOCASE' if nocase else None)
             models.BASE.metadata.drop_all(self.engine)
             migration.create_schema(self.engine)
             trait_obj._TRAITS_SYNCED = False
